@@ -22,7 +22,7 @@ import numpy as np
 from hypothesis import strategies as st
 
 import nifty.cl as ift
-from vlib import Sub, Violation, close, require
+from vlib import Discard, Sub, Violation, close, require
 
 PROPERTY = "C08"
 LEVEL = "exploration"
@@ -214,7 +214,15 @@ def kmax_of(pf):
 
 
 def uniq_of(pf):
-    return cluster(pf.k, 1e-9 * kmax_of(pf))
+    """distinct k-lengths of the oracle table.  Gaps of round-off size (< 1e-13 kmax) are ties, gaps
+    > 1e-8 kmax are distinct; anything in between could legitimately be merged or kept by a tolerance
+    based de-duplication, so such a grid is outside what this oracle can decide (rare: Discard)."""
+    km = kmax_of(pf)
+    v = np.sort(pf.k.ravel())
+    g = np.diff(v)
+    if np.any((g > 1e-13 * km) & (g < 1e-8 * km)):
+        raise Discard()
+    return cluster(v, 1e-10 * km)
 
 
 def custom_bounds(pf, spec):
@@ -297,10 +305,11 @@ def check_k_tables(dom, f, tag):
     close(kv, f.k, f"{tag}:k_length_array", tol=1e-12, scale=km)
     uq = np.asarray(dom.get_unique_k_lengths(), dtype=np.float64)
     require(uq.ndim == 1, f"{tag}:unique_k_ndim", f"{uq.shape}")
-    exp_from_table = cluster(kv, 1e-9 * km)
+    uo = uniq_of(f)                      # (Discards grids with near-ties first)
+    exp_from_table = cluster(kv, 1e-10 * km)
     close(uq, exp_from_table, f"{tag}:unique_k_vs_k_array", tol=1e-9, scale=km,
           detail=f"unique={uq.tolist()[:12]} table-unique={exp_from_table.tolist()[:12]}")
-    close(uq, uniq_of(f), f"{tag}:unique_k_lengths", tol=1e-9, scale=km)
+    close(uq, uo, f"{tag}:unique_k_lengths", tol=1e-9, scale=km)
     require(bool(np.all(np.diff(uq) > 0)), f"{tag}:unique_k_not_sorted", uq.tolist()[:12])
 
 
@@ -1097,7 +1106,7 @@ def check_pair(rec):
 
 
 SUBS = [
-    Sub(name="rg_sweep", check=check_rg, cases=rg_cases, exhaustive=True, shards=4,
+    Sub(name="rg_sweep", check=check_rg, cases=rg_cases, exhaustive=True, shards=3,
         rule="EXHAUSTIVE over all shapes in {1..9}^d, d=1..3 (thorough {1..11}^d) x three fixed distance patterns "
              "(default, (0.5,0.75,1.25), (2,0.25,0.375)) as harmonic spaces, plus position spaces for d<=2 / the "
              "default pattern; build route (direct / via get_default_codomain) alternates; non-trivial = >=2 axes or "
@@ -1117,7 +1126,7 @@ SUBS = [
     Sub(name="dof_space", check=check_pix, strategy=dof_recipes, quick=120, thorough=3000, shards=1,
         rule="DOFSpace with 1-8 integer or dyadic weights given as list/ndarray: dvol = weights, total volume = "
              "sum; non-trivial = weights not all equal"),
-    Sub(name="power_space", check=check_power, strategy=power_recipes, quick=1600, thorough=60000, shards=3,
+    Sub(name="power_space", check=check_power, strategy=power_recipes, quick=2400, thorough=60000, shards=4,
         rule="harmonic partner (RG-harmonic 1-3 axes sizes 1-9 direct/via codomain, or LMSpace lmax<=8) x binning "
              "(natural, linear_binbounds, logarithmic_binbounds, useful_binbounds with/without nbin, custom bounds "
              "between distinct k-lengths, raw sorted bounds); natural and binned space are built on the same partner "
@@ -1127,7 +1136,7 @@ SUBS = [
         rule="EXHAUSTIVE over LMSpace(l<=8, m in {0,l//2,l}), all 1-D/2-D harmonic RG shapes in {1..9}^d x 2 "
              "distance patterns and 3-D shapes in {1,2,3,4,5,8}^3 x {linear, logarithmic} default "
              "useful_binbounds (must not yield empty bins) together with the natural binning; non-trivial as above"),
-    Sub(name="identity", check=check_identity, strategy=identity_recipes, quick=1200, thorough=40000, shards=2,
+    Sub(name="identity", check=check_identity, strategy=identity_recipes, quick=1600, thorough=40000, shards=3,
         rule="1-3 small domains (all kinds incl. Unstructured/DOF/PowerSpace) as DomainTuple from tuple/list/"
              "iterator/DomainTuple/single domain and as MultiDomain over 1-3 keys with permuted insertion order and "
              "mixed value spellings; mutated/swapped/renamed variants must differ; pickle of tuple, multi-domain, "
